@@ -19,7 +19,12 @@ is visible in the model.
 
 This is the model of the tree with fixes C15-1 (`verify_circuit`: list lengths and `checked_add`
 before the challenge slice) and C15-3 (`open_input`: matrix heights compared with
-`log_global_max_height`) applied; the three steps they change are marked `fix C15-n`.
+`log_global_max_height`) applied; the three steps they change are marked `fix C15-n`. It also
+follows the later repairs ca07f07 (F9a: `degree_bits + log_quotient_degree` bounded by the word
+size and the field bit width before the shift), fc0321f (F9d: sibling targets sized by the proof's
+sibling count, the count compared with checked arithmetic), 069da9d (F9e: empty / non-power-of-two
+cap is an error), c030fca (F9i: `log_max_height` compared with the two-adicity) and 0e5036a
+(C07-F4: a proof without fold phase is no longer refused); the steps are marked `fix <commit>`.
 
 Transcribed from (line numbers of the tree the model was written against):
   recursion/src/types/proof.rs            `ProofTargets::new`, `BatchProofTargets::new`
@@ -80,7 +85,9 @@ structure Env where
   twoAdicity : Nat
   /-- `usize::BITS`; arithmetic overflow panics (overflow checks on, dev profile) -/
   wordBits : Nat
-  /-- largest number of targets one allocation may ask for before the process dies -/
+  /-- largest number of targets one allocation may ask for before the process dies. Since
+  fix fc0321f no allocation size is computed from a prover-supplied integer, so no step reads it;
+  kept so that environments (driver lines) keep their format -/
   maxAlloc : Nat
   deriving DecidableEq, Repr
 
@@ -89,6 +96,9 @@ structure QueryShape where
   inputProof : List (List Nat)
   /-- `log_arity` of every commit-phase opening -/
   steps : List Nat
+  /-- number of sibling values of every commit-phase opening (`sibling_values.len()`; read off the
+  same list of openings as `steps`, so of the same length) -/
+  siblings : List Nat
   deriving DecidableEq, Repr
 
 structure FriShape where
@@ -143,25 +153,22 @@ structure Round where
   mats : List (Nat × List Nat)
   deriving Repr
 
-/-! ## Target allocation (`Recursive::new`) -/
+/-! ## Target allocation (`Recursive::new`)
 
-/-- `CommitPhaseProofStepTargets::new`: `1 << log_arity`, `(arity-1) * DIMENSION`, allocation. -/
-def allocStep (e : Env) (la : Nat) : List Check :=
-  [ partialStep (la < e.wordBits),
-    partialStep ((2 ^ la - 1) * e.dim < 2 ^ e.wordBits),
-    partialStep ((2 ^ la - 1) * e.dim ≤ e.maxAlloc) ]
-
-def allocFri (e : Env) (f : FriShape) : List Check :=
-  f.queries.flatMap fun q => q.steps.flatMap (allocStep e)
+fix fc0321f (F9d): `CommitPhaseProofStepTargets::new` allocates `sibling_values.len() * DIMENSION`
+targets — what the proof carries — and no longer computes `1 << log_arity`,
+`(arity - 1) * DIMENSION` from the prover-supplied `log_arity`. Target allocation therefore has no
+shape-dependent partial step any more (the former `allocStep` / `allocFri`); the sibling count is
+compared with `(2^log_arity - 1) * DIMENSION` by `verify_fri_circuit` (`siblingOk` below). -/
 
 /-! ## MMCS cap handling (`verify_batch_circuit*`) -/
 
-/-- `assert!(!cap.is_empty())`, `log2_strict_usize(cap.len())`; fix C08-4 (bd209ac): a cap taller
-than the index (`cap_height > index_bits.len()`) is an explicit `InvalidDimension` error before
-`index_bits.len() - cap_height` is computed. -/
+/-- fix 069da9d (F9e): `merkle_cap_height` returns an error unless `cap.len().is_power_of_two()`
+(false for an empty cap) — before, `assert!(!cap.is_empty())` and `log2_strict_usize(cap.len())`
+panicked; fix C08-4 (bd209ac): a cap taller than the index (`cap_height > index_bits.len()`) is an
+explicit `InvalidDimension` error before `index_bits.len() - cap_height` is computed. -/
 def capChecks (cap bits : Nat) : List Check :=
-  [ partialStep (cap != 0),
-    partialStep (isPow2 cap),
+  [ must (isPow2 cap),
     must (log2 cap ≤ bits) ]
 
 /-! ## FRI (`get_challenges_circuit`, `verify_circuit`, `verify_fri_circuit`, `open_input`) -/
@@ -209,6 +216,18 @@ def commitPhaseChecks (e : Env) (f : FriShape) : List Check :=
       if folded == 0 then [] else capChecks (f.commitCaps.getD i 0) folded
   else []
 
+/-- fix fc0321f (F9d): `u32::try_from(log_arity)` / `1usize.checked_shl` / `checked_mul(DIMENSION)`,
+compared with `sibling_coefficients.len() = sibling_values.len() * DIMENSION`. Written with the
+range test first so that the model stays executable for an out-of-range `log_arity`. -/
+def siblingOk (e : Env) (la sib : Nat) : Bool :=
+  la < e.wordBits && ((2 ^ la - 1) * e.dim < 2 ^ e.wordBits && sib * e.dim == (2 ^ la - 1) * e.dim)
+
+/-- Per-query validation loop of `verify_fri_circuit`: opening count and `log_arity` of every phase
+equal the global schedule; the sibling coefficient count of every phase. -/
+def queryScheduleChecks (e : Env) (las : List Nat) (q : QueryShape) : List Check :=
+  must (q.steps == las)
+  :: (List.range las.length).map fun i => must (siblingOk e (las.getD i 0) (q.siblings.getD i 0))
+
 def friVerifyChecks (e : Env) (f : FriShape) (rounds : List Round) : List Check :=
   let las := f.logArities
   let lmh := logMaxHeight e f
@@ -221,19 +240,22 @@ def friVerifyChecks (e : Env) (f : FriShape) (rounds : List Round) : List Check 
     -- fix C15-1: `checked_add` of `log_final_poly_len` and `log_blowup`
     must (lmh < 2 ^ e.wordBits),
     must (lmh ≤ e.valBits),
+    -- fix c030fca (F9i): `log_max_height > TWO_ADICITY` is `InvalidProofShape` (before: only
+    -- `two_adic_generator(log_max_height)`'s assertion, much later)
+    must (lmh ≤ e.twoAdicity),
     -- `verify_fri_circuit` shape validation
     must (f.commitCaps.length == f.powWitnesses),
     must (las.length == f.commitCaps.length),
     -- `1 <= log_arity` for every phase (native `checked_log_arity`)
     must (las.all (· != 0)),
-    must (f.queries.length != 0),
-    must (f.commitCaps.length != 0) ]
-  ++ (f.queries.map fun q => must (q.steps == las))
+    -- fix 0e5036a (C07-F4): no "at least one fold phase" test any more — a proof whose committed
+    -- matrices already have the final polynomial's height has no phase and is verified as natively
+    must (f.queries.length != 0) ]
+  ++ (f.queries.flatMap fun q => queryScheduleChecks e las q)
   ++ [ -- `final_poly.len() == 1 << log_final_poly_len`, written without the (possibly astronomically
        -- large) power so that the model stays executable for out-of-range parameters
-       must (isPow2 f.finalPolyLen && log2 f.finalPolyLen == e.logFinalPolyLen),
-       -- `two_adic_generator(log_max_height)`
-       partialStep (lmh ≤ e.twoAdicity) ]
+       must (isPow2 f.finalPolyLen && log2 f.finalPolyLen == e.logFinalPolyLen) ]
+       -- (`two_adic_generator(log_max_height)` cannot fail any more: `lmh ≤ twoAdicity` above)
   ++ (f.queries.flatMap fun q => openInputChecks e f rounds q ++ commitPhaseChecks e f)
 
 /-! ## Uni-STARK (`verify_p3_uni_proof_circuit`) -/
@@ -260,14 +282,16 @@ def validateUniShape (e : Env) (s : UniShape) : List Check :=
 
 /-- Everything the uni-STARK builder does before it hands the opening proof to the PCS. -/
 def uniPrefix (e : Env) (s : UniShape) : List Check :=
-  allocFri e s.fri
-  ++ [ -- `1 << degree_bits`
-       partialStep (s.degreeBits < e.wordBits),
-       -- the AIR is evaluated symbolically with the *proof's* preprocessed width
-       -- (`declares_interactions`, `get_log_num_quotient_chunks`) before any validation
-       partialStep (e.airPrepWidth ≤ s.prepWidth),
-       -- `natural_domain_for_degree(1 << degree_bits)` / disjoint quotient domain
-       partialStep (s.degreeBits + e.logQd ≤ e.twoAdicity) ]
+  [ -- the AIR is evaluated symbolically with the *proof's* preprocessed width
+    -- (`declares_interactions`, `get_log_num_quotient_chunks`) before any validation
+    partialStep (e.airPrepWidth ≤ s.prepWidth),
+    -- fix ca07f07 (F9a): `degree_bits.checked_add(log_quotient_degree)` must be below `usize::BITS`
+    -- and at most `Val::bits()`, else `InvalidProofShape` — before `1 << degree_bits`
+    must (s.degreeBits + e.logQd < e.wordBits && s.degreeBits + e.logQd ≤ e.valBits),
+    -- `natural_domain_for_degree(1 << degree_bits)` / disjoint quotient domain of size
+    -- `1 << (degree_bits + log_quotient_degree)`: `TwoAdicMultiplicativeCoset::new(..).unwrap()`.
+    -- What is left of F9a: the bound above is the field bit width, the PCS needs the two-adicity
+    partialStep (s.degreeBits + e.logQd ≤ e.twoAdicity) ]
   ++ friChallengeChecks e s.fri
   ++ [ must (s.random.isNone && s.randomCap.isNone) ]   -- non-ZK PCS
   ++ validateUniShape e s
